@@ -99,7 +99,7 @@ m = {"version": 1, "setup_cmd": "./setup.sh",
           "kind_free_text": "C++ harness around libpomerol's public API (replays specification behaviours, records traces)"}],
      "checks": [], "not_applicable": [], "notes": "see DESIGN.md"}
 WF_OBJ = {"C01": "the GreensFunction object", "C02": "the TwoParticleGF object (incl. the table returned by compute)", "C03": "the Hamiltonian object",
-          "C07": "the StatesClassification object", "C09": "the DensityMatrix and EnsembleAverage objects", "C10": "the field operators and their container",
+          "C07": "the Symmetrizer and StatesClassification objects", "C18": "the IndexClassification object (all objects are constructed before it is prepared)", "C04": "the IndexHamiltonian object", "C09": "the DensityMatrix and EnsembleAverage objects", "C10": "the field operators and their container",
           "C14": "the Susceptibility object", "C15": "the Vertex4 object"}
 for pid, what in WF_OBJ.items():
     CLAIMED[pid]["text"] += (" In addition TLC model-checks the life-cycle state machine of the computable objects (spec/Workflow.tla: statuses, which call changes whose data,"
